@@ -4,7 +4,7 @@
    Proofs/C05g.v proves that the hand-written [mstep] / [logical_newline] of
    Model/C05.v ARE this interpretation of the current tables, for every
    algebra, stack, buffer and character. *)
-From Coq Require Import Bool List.
+From Coq Require Import Bool Ascii List.
 From CBI Require Import Lib.Data Model.C05.
 Import ListNotations.
 
@@ -129,3 +129,116 @@ Definition interp_newline (t : list (mode * list naction)) (st : list mode) (b :
       end
   end.
 End Interp.
+
+(* ---------- one_space_line: the five methods as small programs ---------- *)
+Inductive bcond :=
+  | BNotSpaceArg                 (* not c.isspace() *)
+  | BNotTrailing                 (* not self.trailing_space *)
+  | BOtherNonempty               (* other.parts *)
+  | BOtherHeadSpAndTrailing      (* other.parts[0] == " " and self.trailing_space *)
+  | BNoParts                     (* not self.parts *)
+  | BLen1                        (* len(self.parts) == 1 *)
+  | BHeadIs (c : ascii)          (* self.parts[0] == c *)
+  | BDirPrefix.                  (* self.parts[:2] == [" ", "#"] or self.parts[0] == "#" *)
+Inductive bstmt :=
+  | BIf (c : bcond) (th el : list bstmt)
+  | BAppendArg                   (* self.parts.append(c) *)
+  | BAppendSp                    (* self.parts.append(" ") *)
+  | BSetTrailing (b : bool)      (* self.trailing_space = b *)
+  | BExtendTail                  (* self.parts += other.parts[1:] *)
+  | BExtendAll                   (* self.parts += other.parts[:] *)
+  | BTrailingOther               (* self.trailing_space = other.trailing_space *)
+  | BSetRes (k : cat).           (* res = "..." *)
+
+Record bstate := { bs_self : osl; bs_arg : ascii; bs_other : osl; bs_res : cat }.
+
+Definition head_is (c : ascii) (l : list ascii) : bool :=
+  match l with x :: _ => Ascii.eqb x c | [] => false end.
+
+Definition bcond_holds (c : bcond) (st : bstate) : bool :=
+  let p := parts (bs_self st) in
+  match c with
+  | BNotSpaceArg => negb (isspace (bs_arg st))
+  | BNotTrailing => negb (trailing (bs_self st))
+  | BOtherNonempty => match parts (bs_other st) with [] => false | _ => true end
+  | BOtherHeadSpAndTrailing => head_is sp (parts (bs_other st)) && trailing (bs_self st)
+  | BNoParts => match p with [] => true | _ => false end
+  | BLen1 => match p with [_] => true | _ => false end
+  | BHeadIs x => head_is x p
+  | BDirPrefix =>
+      match p with
+      | a :: b :: _ => (Ascii.eqb a sp && Ascii.eqb b hash) || Ascii.eqb a hash
+      | [a] => Ascii.eqb a hash
+      | [] => false
+      end
+  end.
+
+Definition set_self (st : bstate) (b : osl) : bstate :=
+  {| bs_self := b; bs_arg := bs_arg st; bs_other := bs_other st; bs_res := bs_res st |}.
+
+Fixpoint bexec (s : bstmt) (st : bstate) {struct s} : bstate :=
+  let run := fix run (l : list bstmt) (st : bstate) : bstate :=
+               match l with [] => st | x :: r => run r (bexec x st) end in
+  match s with
+  | BIf c th el => if bcond_holds c st then run th st else run el st
+  | BAppendArg => set_self st {| parts := parts (bs_self st) ++ [bs_arg st]; trailing := trailing (bs_self st) |}
+  | BAppendSp => set_self st {| parts := parts (bs_self st) ++ [sp]; trailing := trailing (bs_self st) |}
+  | BSetTrailing b => set_self st {| parts := parts (bs_self st); trailing := b |}
+  | BExtendTail => set_self st {| parts := parts (bs_self st) ++ tl (parts (bs_other st)); trailing := trailing (bs_self st) |}
+  | BExtendAll => set_self st {| parts := parts (bs_self st) ++ parts (bs_other st); trailing := trailing (bs_self st) |}
+  | BTrailingOther => set_self st {| parts := parts (bs_self st); trailing := trailing (bs_other st) |}
+  | BSetRes k => {| bs_self := bs_self st; bs_arg := bs_arg st; bs_other := bs_other st; bs_res := k |}
+  end.
+Fixpoint brun (l : list bstmt) (st : bstate) : bstate :=
+  match l with [] => st | x :: r => brun r (bexec x st) end.
+
+Definition bstart (self : osl) (c : ascii) (other : osl) : bstate :=
+  {| bs_self := self; bs_arg := c; bs_other := other; bs_res := SRC |}.
+
+(* ---------- c_file_source: the guarded steps of the physical-line loop ---------- *)
+Inductive lguard :=
+  | GAlways
+  | GEndsLogical       (* not continued and cleaner.state[-1] != "IN_BLOCK_COMMENT" *)
+  | GPhysNotBlank.     (* not current_physical_line.category() == "BLANK" *)
+Inductive lact :=
+  | LResetPhys         (* current_physical_line.__init__() *)
+  | LProcess           (* cleaner.process(it.islice(line, 0, end)) *)
+  | LNewline           (* cleaner.logical_newline() *)
+  | LAddLine           (* curr_line.add_physical_line(physical_line_num) *)
+  | LJoin              (* curr_line.join(current_physical_line) *)
+  | LClose.            (* physical_update(n + 1); yield if not BLANK; total_sloc += physical_reset() *)
+
+Section Loop.
+Context {C B : Type} (A : alg C B).
+
+Definition with_st (f : fs B) (st : list mode) : fs B :=
+  {| fs_st := st; fs_L := fs_L f; fs_lines := fs_lines f; fs_sloc := fs_sloc f; fs_start := fs_start f;
+     fs_total := fs_total f; fs_out := fs_out f |}.
+
+Definition lguard_holds (g : lguard) (continued : bool) (b : B) (f : fs B) : bool :=
+  match g with
+  | GAlways => true
+  | GEndsLogical => negb continued && negb (top_is_block (fs_st f))
+  | GPhysNotBlank => negb (cat_blank (a_cat A b))
+  end.
+
+Definition lact_do (a : lact) (n : nat) (body : list C) (b : B) (f : fs B) : B * fs B :=
+  match a with
+  | LResetPhys => (a_empty A, f)
+  | LProcess => let r := process A (fs_st f) b body in (snd r, with_st f (fst r))
+  | LNewline => let r := logical_newline A (fs_st f) b in (snd r, with_st f (fst r))
+  | LAddLine => (b, {| fs_st := fs_st f; fs_L := fs_L f; fs_lines := fs_lines f ++ [n]; fs_sloc := S (fs_sloc f);
+                       fs_start := fs_start f; fs_total := fs_total f; fs_out := fs_out f |})
+  | LJoin => (b, {| fs_st := fs_st f; fs_L := a_join A (fs_L f) b; fs_lines := fs_lines f; fs_sloc := fs_sloc f;
+                    fs_start := fs_start f; fs_total := fs_total f; fs_out := fs_out f |})
+  | LClose => (b, close_logical A (fs_st f) (fs_L f) (fs_lines f) (fs_sloc f) (fs_start f) (fs_total f) (fs_out f) n)
+  end.
+
+Fixpoint lrun (t : list (lguard * lact)) (n : nat) (body : list C) (continued : bool) (b : B) (f : fs B) : B * fs B :=
+  match t with
+  | [] => (b, f)
+  | (g, a) :: r =>
+      let x := if lguard_holds g continued b f then lact_do a n body b f else (b, f) in
+      lrun r n body continued (fst x) (snd x)
+  end.
+End Loop.
